@@ -253,6 +253,8 @@ def coq_op(op, step):
     if o == 'bus_new':
         return 'OBusNew %s %s %s %s' % (cbool(op['audio']), oz(alloc_of(step, 'abus' if op['audio'] else 'cbus')),
                                        cz(op['channels']), oz(op.get('index')))
+    if o == 'bus_sub':
+        return 'OBusSub %s %s %s' % (cnat(op['u']), cz(op['offset']), cz(op['channels']))
     if o == 'bus_free':
         return 'OBusFree %s' % cnat(op['u'])
     if o in ('bus_set', 'bus_set_at'):
@@ -621,6 +623,19 @@ def monitors(h, out, default_group=1):
             nbus += 1
         elif o == 'bus_new':
             bus_objs[nbus] = None; bus_audio[nbus] = op['audio']; nbus += 1
+        if o == 'bus_sub':
+            par = bus_objs.get(op['u']); pc = bus_chans.get(op['u'])
+            inside = par is not None and pc is not None and op['offset'] >= 0 and op['channels'] >= 0 and op['offset'] + op['channels'] <= pc
+            if st['exc'] is None and not inside:
+                bad.append((None, 'op %d: sub_bus(%d, %d) of a %s-channel bus at %s was accepted: it reaches outside the channels the parent owns' % (
+                    i, op['offset'], op['channels'], pc, par)))
+            if st['exc'] is None:
+                bus_objs[nbus] = (par + op['offset']) if par is not None else None
+                bus_chans[nbus] = op['channels']
+            else:
+                bus_objs[nbus] = None; bus_chans[nbus] = None
+            bus_audio[nbus] = bus_audio.get(op['u'], False)
+            nbus += 1
         # M4: free
         if o == 'b_free':
             num = buf_objs.get(op['b'])
